@@ -350,6 +350,46 @@ func checkC11(c *Ctx) {
 				}
 			}
 		}
+		// or through a helper whose own body is the countdown from its parameter
+		if pl.nSrc != nil && !viaNext {
+			for _, r := range referrers(pl.nSrc) {
+				call, isCall := r.(*ssa.Call)
+				if !isCall {
+					continue
+				}
+				callee := call.Call.StaticCallee()
+				if callee == nil || len(callee.Blocks) == 0 {
+					continue
+				}
+				for i, a := range call.Call.Args {
+					if a != ssa.Value(pl.nSrc) || i >= len(callee.Params) {
+						continue
+					}
+					par := callee.Params[i]
+					counts := false
+					for _, r2 := range referrers(par) {
+						if phi, isPhi := r2.(*ssa.Phi); isPhi {
+							for _, r3 := range referrers(phi) {
+								if bo, isBO := r3.(*ssa.BinOp); isBO && bo.Op == token.GTR {
+									if k, isK := constInt(bo.Y); isK && k == 0 {
+										counts = true
+									}
+								}
+							}
+						}
+						if nx, isNx := r2.(*ssa.Call); isNx && calleeName(&nx.Call) == "(*bytes.Buffer).Next" {
+							counts = true
+						}
+					}
+					reads := len(callsIn(callee, func(n string, _ *ssa.CallCommon) bool {
+						return n == "(*bytes.Buffer).ReadByte" || n == "(*bytes.Buffer).Next"
+					}))
+					if counts && reads >= 1 {
+						viaNext = true
+					}
+				}
+			}
+		}
 		c.Check((ok && nread >= 2) || viaNext, "C11-R2", "parseRune:consumes-nSrc", p.pos(pl.call.Pos()), "as many bytes are removed as Transform reports consumed (ReadByte loop counting down from nSrc, or Next(nSrc))")
 	}
 	// R3
@@ -396,6 +436,13 @@ func checkC11(c *Ctx) {
 				}
 			}
 			for _, call := range pasteCalls {
+				if bo, isBO := callCommon(call).Args[0].(*ssa.BinOp); isBO && strings.HasSuffix(valName(bo.X), ".key") {
+					// polarity computed from the key itself: key == start, or key != end
+					k, isK := constInt(bo.Y)
+					good := isK && ((bo.Op == token.EQL && k == kStart) || (bo.Op == token.NEQ && k == kEnd))
+					c.Check(good, "C11-R3", "parseFunctionKey:NewEventPaste(computed)", p.pos(call.Pos()), "paste event polarity computed from the bracket key (key == start / key != end)")
+					continue
+				}
 				v, _ := constBool(callCommon(call).Args[0])
 				want := kEnd
 				if v {
